@@ -71,10 +71,9 @@ def expr_str(e, strmode):
 
 
 class Conc:
-    """One concretisation of an abstract document.  Whitespace is only put
-    AFTER elements: a text node before the first element of a list is a tag of
-    its own for the retry loop of the pinned code, which would make the
-    as-built predictions (known findings) depend on indentation."""
+    """One concretisation of an abstract document.  Indented variants put white space
+    after elements and, optionally, before the first child of a container (a text node
+    of its own for the tag list)."""
 
     def __init__(self, rec, rnd, wrap=True, indent=False):
         self.rec = rec
@@ -82,6 +81,9 @@ class Conc:
         self.strmode = rec["str"]
         self.wrap = wrap
         self.nl = "\n" if indent else ""
+        # white space BEFORE the first child as well (indented documents): a text node of its
+        # own for the tag list, which must not matter
+        self.lead = rnd.choice(["", "\n  ", " "]) if indent else ""
         self.cont_name = rnd.choice(CONT_NAMES)
         self.tc_name = rnd.choice(TEXTCONT_NAMES)
         # loop family: the loop variable `a` takes values start, start+step, ...; scale them
@@ -206,17 +208,17 @@ class Conc:
                 a = (a + pr) if self.rnd.random() < 0.5 else (a[:1] + pr + a[1:])
             if not n["ch"] and self.rnd.random() < 0.5:
                 return f'<g {" ".join(a)}/>{nl}'
-            return f'<g {" ".join(a)}>{kids}</g>{nl}'
+            return f'<g {" ".join(a)}>{self.lead}{kids}</g>{nl}'
         if k == "cont":
             if n["content"]:
                 return f'<{self.tc_name}>c{i}</{self.tc_name}>{nl}'
-            return f'<{self.cont_name}>{kids}</{self.cont_name}>{nl}'
+            return f'<{self.cont_name}>{self.lead}{kids}</{self.cont_name}>{nl}'
         if k == "var":
             a = [f'{x}="{fmtnum(e["v"] * self.vscale) if (x == "a" and e["t"] == "lit" and self.vscale != 1) else expr_str(e, self.strmode)}"'
                  for x, e in n["asg"]]
             return f'<var {" ".join(a)}/>{nl}'
         if k == "if":
-            return f'<if test="{expr_str(n["cond"], False)}">{kids}</if>{nl}'
+            return f'<if test="{expr_str(n["cond"], False)}">{self.lead}{kids}</if>{nl}'
         if k == "loop":
             if n["form"] == "for":
                 data = self.rnd.choice([", ", ","]).join(fmtnum((i + 1) * self.vscale) for i in range(n["cnt"]))
@@ -225,7 +227,7 @@ class Conc:
                     a.append(f'idx-var="{n["rd"]}"')
                 elif self.rnd.random() < 0.3:
                     a.append('idx-var="unusedidx"')
-                return f'<for {" ".join(a)}>{kids}</for>{nl}'
+                return f'<for {" ".join(a)}>{self.lead}{kids}</for>{nl}'
             if n["form"] == "count":
                 a = [f'count="{n["cnt"]}"']
                 if n["lv"] != "-":
@@ -236,7 +238,7 @@ class Conc:
                         a.append(f'step="{fmtnum(n["step"] * self.vscale)}"')
             else:
                 a = [f'{n["form"]}="{expr_str(n["cond"], False)}"']
-            return f'<loop {" ".join(a)}>{kids}</loop>{nl}'
+            return f'<loop {" ".join(a)}>{self.lead}{kids}</loop>{nl}'
         if k == "reuse":
             a = [f'id="r{i}"', f'href="#n{n["href"]}"'] + [f'{x}="{v}"' for x, v in n["loc"]]
             if n["ref"] > 0:
@@ -252,14 +254,14 @@ class Conc:
             a = [f'{names[x]}="{v + (1 if (x == "dl" and self.wrap) else 0)}"' for x, v in n["loc"]]
             return f'<config {" ".join(a)}/>{nl}'
         if k == "specs":
-            return f'<specs>{kids}</specs>{nl}'
+            return f'<specs>{self.lead}{kids}</specs>{nl}'
         raise ValueError(k)
 
     def xml(self, doc=None):
         doc = self.rec["doc"] if doc is None else doc
         body = "".join(self.node(n) for n in doc)
         if self.wrap:
-            return f"<svg>{body}</svg>"
+            return f"<svg>{self.lead}{body}</svg>"
         return body
 
     def cfg(self):
